@@ -733,3 +733,195 @@ func changeLoopHost(r *an.Run, f *ssa.Function) *ssa.Function {
 	}
 	return f
 }
+
+// liftIn translates v, a value inside a helper of f's group, to f's point of
+// view: a parameter becomes the argument at the helper's (single) call site in
+// the group, a field of a struct parameter becomes what the caller stored into
+// that field of the struct it hands over (a literal built just before the
+// call), and a field of such a field is looked up among the values f itself
+// computes. It returns v itself when there is nothing to translate and nil
+// when the value cannot be expressed in f.
+func liftIn(f *ssa.Function, v ssa.Value) ssa.Value {
+	return liftInDepth(f, v, 0)
+}
+
+func liftInDepth(f *ssa.Function, v ssa.Value, depth int) ssa.Value {
+	if v == nil || depth > 6 {
+		return nil
+	}
+	v = an.Unwrap(v)
+	switch x := v.(type) {
+	case *ssa.Parameter:
+		if x.Parent() == f {
+			return v
+		}
+		a := actualIn(f, x)
+		if a == ssa.Value(x) {
+			return nil
+		}
+		return liftInDepth(f, a, depth+1)
+	case *ssa.Field:
+		base := liftInDepth(f, x.X, depth+1)
+		if base == nil {
+			return nil
+		}
+		if base == x.X {
+			return v // already in f
+		}
+		return fieldOfIn(f, base, x.Field, depth)
+	case *ssa.UnOp:
+		if fa, ok := x.X.(*ssa.FieldAddr); ok && x.Parent() != f {
+			// a load through a chain of field addresses rooted at a struct parameter that was spilled to a
+			// local (`t0 = local T (p); *t0 = p; &t0.a.b`) or at a pointer parameter
+			var path []int
+			var root ssa.Value = fa
+			for {
+				a, ok := root.(*ssa.FieldAddr)
+				if !ok {
+					break
+				}
+				path = append([]int{a.Field}, path...)
+				root = a.X
+			}
+			var prm *ssa.Parameter
+			switch t := root.(type) {
+			case *ssa.Parameter:
+				prm = t
+			case *ssa.Alloc:
+				if t.Referrers() != nil {
+					n := 0
+					for _, u := range *t.Referrers() {
+						if st, ok := u.(*ssa.Store); ok && st.Addr == ssa.Value(t) {
+							n++
+							prm, _ = st.Val.(*ssa.Parameter)
+						}
+					}
+					if n != 1 {
+						prm = nil
+					}
+				}
+			}
+			if prm == nil {
+				return nil
+			}
+			base := liftInDepth(f, prm, depth+1)
+			for _, idx := range path {
+				if base == nil {
+					return nil
+				}
+				base = fieldOfIn(f, base, idx, depth)
+			}
+			return base
+		}
+	}
+	if in, ok := v.(ssa.Instruction); ok && in.Parent() != f && in.Parent() != nil {
+		return nil
+	}
+	return v
+}
+
+// fieldOfIn finds, in f, the value of field idx of the struct value base: when
+// base is a load of a local struct variable, what was stored into that field;
+// otherwise an existing selection of that field from the same base.
+func fieldOfIn(f *ssa.Function, base ssa.Value, idx int, depth int) ssa.Value {
+	if ld, ok := base.(*ssa.UnOp); ok {
+		if al, ok := ld.X.(*ssa.Alloc); ok && al.Referrers() != nil {
+			var val ssa.Value
+			n := 0
+			for _, u := range *al.Referrers() {
+				fa, ok := u.(*ssa.FieldAddr)
+				if !ok || fa.Field != idx || fa.Referrers() == nil {
+					continue
+				}
+				for _, w := range *fa.Referrers() {
+					if st, ok := w.(*ssa.Store); ok && st.Addr == ssa.Value(fa) {
+						val = st.Val
+						n++
+					}
+				}
+			}
+			if n == 1 {
+				return liftInDepth(f, val, depth+1)
+			}
+			if n > 1 {
+				return nil
+			}
+			// the variable is assigned whole (a range element, a copy): look for a selection of the field
+		}
+	}
+	for _, b := range f.Blocks {
+		for _, in := range b.Instrs {
+			switch y := in.(type) {
+			case *ssa.Field:
+				if y.Field == idx && an.Unwrap(y.X) == base {
+					return y
+				}
+			case *ssa.UnOp:
+				if fa, ok := y.X.(*ssa.FieldAddr); ok && fa.Field == idx {
+					// the same element seen through its address (range element, local copy)
+					if x, ok := base.(*ssa.UnOp); ok && x.X == fa.X {
+						return y
+					}
+				}
+			}
+		}
+	}
+	return nil
+}
+
+// liftStructOf: v is (a load of) a field of a struct reachable from a
+// parameter of a helper in f's group; it returns the struct value the field
+// belongs to, as f sees it (nil when unknown). Used when the field itself is
+// never selected in f.
+func liftStructOf(f *ssa.Function, v ssa.Value) ssa.Value {
+	x, ok := an.Unwrap(v).(*ssa.UnOp)
+	if !ok {
+		if fld, ok := an.Unwrap(v).(*ssa.Field); ok {
+			return liftIn(f, fld.X)
+		}
+		return nil
+	}
+	fa, ok := x.X.(*ssa.FieldAddr)
+	if !ok {
+		return nil
+	}
+	var path []int
+	var root ssa.Value = fa
+	for {
+		a, ok := root.(*ssa.FieldAddr)
+		if !ok {
+			break
+		}
+		path = append([]int{a.Field}, path...)
+		root = a.X
+	}
+	var prm *ssa.Parameter
+	switch t := root.(type) {
+	case *ssa.Parameter:
+		prm = t
+	case *ssa.Alloc:
+		if t.Referrers() != nil {
+			n := 0
+			for _, u := range *t.Referrers() {
+				if st, ok := u.(*ssa.Store); ok && st.Addr == ssa.Value(t) {
+					n++
+					prm, _ = st.Val.(*ssa.Parameter)
+				}
+			}
+			if n != 1 {
+				prm = nil
+			}
+		}
+	}
+	if prm == nil || len(path) == 0 {
+		return nil
+	}
+	base := liftIn(f, prm)
+	for _, idx := range path[:len(path)-1] {
+		if base == nil {
+			return nil
+		}
+		base = fieldOfIn(f, base, idx, 0)
+	}
+	return base
+}
